@@ -22,6 +22,7 @@ CONSTANTS
   OverflowWrapped = TRUE
   InstOffsetAll = FALSE
   OpenPrecheck = TRUE
+  EmbLexerClone = TRUE
 INVARIANT TypeOK
 INVARIANT ImplRefinesReq
 INVARIANT PositionFileOK
